@@ -247,9 +247,11 @@ const TAILS2: [&str; 30] = [
     "(a INT foo)", "(a ARRAY<INT>)", "(a)", "(INT a)", "(a.b INT)", "(a b.c)", "(1, 2)", "(a, b)",
 ];
 
-const CUSTOMS: [&str; 48] = [
+const CUSTOMS: [&str; 50] = [
     // string-literal modifiers are stored in their SQL spelling: blanks, doubled quotes, the `''` and `\'` quirks of the printer
     "foo('it''s')", "foo('a''''b')", "foo('a\\''b')", "foo('a\\b')", "foo('x y', 1, z)", "foo('a' 'b')", "foo(N'x')", "foo('é 中')",
+    // a quoted-word modifier is stored by `Display for Word` (quotes kept, an embedded quote NOT doubled)
+    "foo(\"a b\")", "foo(\"a\"\"b\")",
     "foo", "foo.bar", "foo.bar.baz", "\"foo\"", "`foo`", "[foo]", "'foo'", "\"foo\".bar", "foo.\"bar\"", "foo.'bar'", "\"a.b\".c", "a.\"b.c\"",
     "`a.b`", "a.b.", "foo(1)", "foo(1, 2)", "foo(a, b)", "foo(a b)", "foo('a')", "foo('a b')", "foo('')", "foo()", "foo(,)", "foo(,a,,b,)",
     "foo(+)", "foo(1.5, 2L)", "foo(\"q\", `r`)", "foo(INT)", "foo(a(b))", "foo(a", "GEOMETRY(POINT, 4326)", "VARCHAR2(10)", "public.citext",
@@ -355,7 +357,7 @@ fn random_nest(rng: &mut Rng, depth: usize) -> String {
 }
 
 pub fn corr_parse(dir: &str, seed: u64, tier: &str) -> Report {
-    let mut r = Report::new("C18", "corr.dtparse", "real Parser::parse_data_type on token vectors (real tokenizer, whitespace dropped) vs model parseDT, answer = S-expression of the value + number of tokens left, or the error (message incl. found token; class for the two `unmatched >` errors and the recursion limit): 73 type keywords + plain/quoted custom names x 72 parameter tails (absent/0/1/255/2^64-1/2^64/non-integers, precision+scale, UNSIGNED, PRECISION, VARYING, LARGE OBJECT, WITH/WITHOUT TIME ZONE and their truncations, MAX/CHARACTERS/OCTETS, label lists, DateTime64 zones of every string-token kind, [] suffixes, <..> and (..) element forms) + 30 field-list tails, 48 custom-name/modifier forms (string-literal modifiers with blanks, doubled quotes, backslashes), the nesting grid (18 wrappers incl. ARRAY<@>, ARRAY<@ >, STRUCT<..@>, Map, Tuple, Nested, Nullable, [] suffixes, DuckDB STRUCT(..)/UNION(..)) to depth 2 (thorough: 3) over 3 bases, every truncation / single-token deletion / token replacement of the depth-1 and sampled depth-2 texts, nesting around the recursion limit, random deeper nestings; x 13 dialects; non-trivial = distinct (dialect, answer)");
+    let mut r = Report::new("C18", "corr.dtparse", "real Parser::parse_data_type on token vectors (real tokenizer, whitespace dropped) vs model parseDT, answer = S-expression of the value + number of tokens left, or the error (message incl. found token; class for the two `unmatched >` errors and the recursion limit): 73 type keywords + plain/quoted custom names x 72 parameter tails (absent/0/1/255/2^64-1/2^64/non-integers, precision+scale, UNSIGNED, PRECISION, VARYING, LARGE OBJECT, WITH/WITHOUT TIME ZONE and their truncations, MAX/CHARACTERS/OCTETS, label lists, DateTime64 zones of every string-token kind, [] suffixes, <..> and (..) element forms) + 30 field-list tails, 50 custom-name/modifier forms (string-literal modifiers with blanks, doubled quotes, backslashes), the nesting grid (18 wrappers incl. ARRAY<@>, ARRAY<@ >, STRUCT<..@>, Map, Tuple, Nested, Nullable, [] suffixes, DuckDB STRUCT(..)/UNION(..)) to depth 2 (thorough: 3) over 3 bases, every truncation / single-token deletion / token replacement of the depth-1 and sampled depth-2 texts, nesting around the recursion limit, random deeper nestings; x 13 dialects; non-trivial = distinct (dialect, answer)");
     let thorough = tier == "thorough";
     let mut s = Stream::new(dir, "dtparse");
     let mut rng = Rng(seed ^ 0xC18);
